@@ -292,11 +292,12 @@ func (t *Total) Merge(t2 *Total) *Total {
 			nt.Categories = append(nt.Categories, catTotal)
 		} else {
 			catTotal.Amount = catTotal.Amount.Add(ct.Amount)
-			if ct.Surcharge != nil && catTotal.Surcharge != nil {
-				ns := catTotal.Surcharge.Add(*ct.Surcharge)
+			if ct.Surcharge != nil {
+				ns := *ct.Surcharge
+				if catTotal.Surcharge != nil {
+					ns = catTotal.Surcharge.Add(*ct.Surcharge)
+				}
 				catTotal.Surcharge = &ns
-			} else {
-				catTotal.Surcharge = ct.Surcharge
 			}
 			// Merge the rates
 			for _, rt := range ct.Rates {
